@@ -13,7 +13,8 @@ ORIG_DUMPS = pickle.dumps
 CONFIG = dict(
     level="exploration",
     rule=("payloads = wrapper chains of depth 0..3 over {torch.storage._load_from_bytes (allow-listed), "
-          "pickle.loads, _pickle.loads, torch.load (user-added)} around an inner payload that is a bare pickle, "
+          "pickle.loads, _pickle.loads, torch.load (user-added)} around an inner payload that is a bare pickle (the final "
+          "global spelled with GLOBAL, INST, STACK_GLOBAL, through REDUCE or OBJ), "
           "a legacy stacked PyTorch container or a zip PyTorch container and ends in a global that is "
           "allow-listed, user-added or not allow-listed (vp_sink.hit); loaded through all four hooked entry "
           "points under four sets of explicit additions (quick: seeded sample of the cross product, thorough: "
@@ -54,10 +55,12 @@ FINALS = {
     "allowed": ("collections", "OrderedDict"),
     "added": ("collections", "Counter"),
     "forbidden": ("vp_sink", "hit"),
+    "stdlib-not-listed-2": ("string", "Formatter"),   # no byte of either name is an opcode that imports
     # protocol >= 4 resolves a dotted name as an attribute path: these start at allow-listed names
     "dotted-allowed-prefix": ("collections", "OrderedDict.fromkeys"),
     "dotted-globals": ("argparse", "Namespace.__init__.__globals__"),
 }
+BARE_SPELLINGS = ("bare", "bare-inst", "bare-inst-proto2", "bare-sg-reduce", "bare-sg-obj", "bare-global-obj")
 ENTRIES = ["pickle.load", "pickle.loads", "_pickle.load", "_pickle.loads"]
 
 
@@ -81,6 +84,22 @@ def inner_payload(kind, final, torch):
         # STACK_GLOBAL / GLOBAL with a dotted name under PROTO 4; only resolved, never called
         sg = b"\x80\x04\x8c" + bytes([len(m)]) + m.encode() + b"\x8c" + bytes([len(n)]) + n.encode() + b"\x93."
         return sg
+    if kind in BARE_SPELLINGS and kind != "bare":
+        # the same global through the other global-resolving opcodes
+        args = b"S'nested'\n" if final == "forbidden" else b""
+        mb, nb = m.encode(), n.encode()
+        if kind == "bare-inst":
+            return b"(" + args + b"i" + mb + b"\n" + nb + b"\n."
+        if kind == "bare-inst-proto2":
+            return b"\x80\x02(" + args + b"i" + mb + b"\n" + nb + b"\n."
+        sg = b"\x8c" + bytes([len(mb)]) + mb + b"\x8c" + bytes([len(nb)]) + nb + b"\x93"
+        if kind == "bare-sg-reduce":
+            return b"\x80\x04" + sg + b"(" + args + b"tR."
+        if kind == "bare-sg-obj":
+            return b"\x80\x04(" + sg + args + b"o."
+        if kind == "bare-global-obj":
+            return b"(c" + mb + b"\n" + nb + b"\n" + args + b"o."
+        raise KeyError(kind)
     if kind == "bare":
         return b"c" + m.encode() + b"\n" + n.encode() + b"\n" + (b"(S'nested'\ntR." if final == "forbidden" else b")R.")
     buf = io.BytesIO()
@@ -121,8 +140,8 @@ def cases(ctx):
         chains += list(itertools.product(sorted(WRAPPERS), repeat=d))
     allc = []
     for chain in chains:
-        for kind in ("bare", "legacy", "zip"):
-            if kind != "bare" and (not chain or chain[-1] not in ("tlb", "tl")):
+        for kind in BARE_SPELLINGS + ("legacy", "zip"):
+            if kind not in BARE_SPELLINGS and (not chain or chain[-1] not in ("tlb", "tl")):
                 continue        # a torch container is only unpickled by a torch loader
             for final in FINALS:
                 for entry in ENTRIES:
@@ -213,7 +232,7 @@ def run_case(ctx, mods, base, cache, chain, kind, final, entry, aname, overlay="
     host = next((wn for wn in reversed(chain) if wn in ("tlb", "tl")), None)
     hostname = {"tlb": "_load_from_bytes", "tl": "torch.load", None: "direct"}[host]
     if forbidden or sink:
-        agg.violation(f"nested-unmediated:{hostname}:{kind}" if host and kind != "bare" else f"unmediated:{hostname}:{kind}",
+        agg.violation(f"nested-unmediated:{hostname}:{kind}" if host and kind not in BARE_SPELLINGS else f"unmediated:{hostname}:{kind}",
                       f"while the safe ML environment was active, globals outside the allowlist were resolved "
                       f"{forbidden[:3]} / sink ran {sink[:1]} (outcome: {agg_out(outc, unsafe)})",
                       dict(w, forbidden=[list(g) for g in forbidden[:4]], sink=repr(sink[:2])))
@@ -231,7 +250,7 @@ def run_case(ctx, mods, base, cache, chain, kind, final, entry, aname, overlay="
     first_bad = next(i for i, g in enumerate(chain_globals_of(chain, final)) if not in_allow(base, adds, g[1]))
     prefix = chain_globals_of(chain, final)[:first_bad]
     certain = all(tag in ("tlb", "pl", "cpl") for tag, _ in prefix) and (
-        chain_globals_of(chain, final)[first_bad][0] != "final" or kind == "bare")
+        chain_globals_of(chain, final)[first_bad][0] != "final" or kind in BARE_SPELLINGS)
     if certain:
         agg.count("certainly_reached_forbidden")
         if outc[0] == "ret":
